@@ -606,3 +606,28 @@ pub fn compositions(stream: StreamSpec, n: usize, eof_now: bool) -> Vec<SniffCas
     }
     out
 }
+
+
+/// The same simulation judged for C18: the sniffer and its rewind buffer are byte-stream adapters in
+/// front of hyper; when the answer to a stream depends on how it was fragmented, or differs from the
+/// single-protocol server's, bytes were lost, duplicated or invented on the way through them.
+pub struct SniffRewindEngine;
+
+impl Engine for SniffRewindEngine {
+    type Case = SniffCase;
+    fn name(&self) -> &'static str {
+        "sniff"
+    }
+    fn run_case(&self, c: &SniffCase) -> CaseReport {
+        let mut rep = SniffEngine.run_case(c);
+        for v in rep.violations.iter_mut() {
+            v.sig = match v.sig.as_str() {
+                "C08/fragmentation-changes-response" => "C18/sniffing-rewind/fragmentation-changes-what-hyper-reads".to_string(),
+                "C08/differs-from-single-protocol-server" => "C18/sniffing-rewind/bytes-differ-from-direct-delivery".to_string(),
+                other => format!("ignored/{other}"),
+            };
+        }
+        rep.violations.retain(|v| v.sig.starts_with("C18/"));
+        rep
+    }
+}
